@@ -8,23 +8,30 @@ from translate import ufunc_deriv as T
 
 PID = 'C06'
 SHARD_SIZE = 150
-RULE = ('random well-typed expression trees (depth 0..4 quick, 0..6 thorough) over the 10 expression classes of '
-        'operator.py with leaves Scaling/Identity/Multiply/Matrix/InnerProduct/Zero/Constant/Power/ufunc '
-        'square,reciprocal,negative/a user-defined cubic operator on rn(1..3) and the scalar field, integer and '
-        'dyadic points/directions; per case the operator value, is_linear, the whole object returned by '
-        'derivative(x) (class skeleton + every scalar/vector it holds), its is_linear/domain/range and its value '
-        'on a direction are compared; Norm/Dist cases on Pythagorean points; every entry of the regenerated '
-        'ufunc derivative/gradient tables against numpy primitives.  A tree case is non-trivial when the '
-        'operator is flagged nonlinear; distinct by (tree, x, d).')
+RULE = ('random well-typed expression trees (depth 0..4 quick, 0..6 thorough) over the 14 modelled classes '
+        '(OperatorSum/VectorSum/Comp/PointwiseProduct/Left-,RightScalarMult/Left-,RightVectorMult/FunctionalLeftVectorMult, '
+        'Broadcast/Reduction/Diagonal/ProductSpaceOperator with holes) with leaves Scaling/Identity/Multiply/Matrix/'
+        'InnerProduct/Zero/Constant/Power/ufunc square,reciprocal,negative,absolute,sign/PointwiseNorm(1)/PointwiseInner/'
+        'a user-defined cubic operator, on rn(1..3), the scalar field and product spaces of 1..3 parts; block operators '
+        'also forced at the root; integer and dyadic points/directions; per case the operator value, is_linear, the '
+        'WHOLE object returned by derivative(x) (class skeleton + every scalar/vector/point it holds), its '
+        'is_linear/domain/range and its value on a direction are compared, or that derivative(x) raises; Norm/Dist/'
+        'PointwiseNorm(2) on Pythagorean points; every entry of the regenerated ufunc derivative/gradient tables '
+        'against numpy primitives.  A tree case is non-trivial when the operator is flagged nonlinear; distinct by '
+        '(tree, x, d).')
 ASSUMPTIONS = ['exact arithmetic: the model is evaluated over Q / proved over R; float rounding is outside the theorems '
                '(tolerance 1e-9 abs+rel in the correspondence)',
-               'elements of rn(n) are modelled as lists, the scalar field as singleton lists',
+               'elements of rn(n) are modelled as lists, the scalar field as singleton lists, product-space elements as '
+               'the concatenation of their parts',
                'differentiability of a composite is proved at points where every leaf met along the way is '
-               'differentiable (regular points); zero-crossings of reciprocal/log/sqrt/norm are excluded as in the property',
+               'differentiable (regular points); zero-crossings of reciprocal/log/sqrt/|.|/norm are excluded as in the property',
+               'Hadamard (curve-wise) differentiability is used as the definition of the Frechet derivative on R^n '
+               '(equivalent in finite dimension; the equivalence itself is not formalised); uniqueness and the '
+               'central-difference limit are proved from it',
                'central-difference O(h^2) rate is validated numerically (probes), not proved']
 TRUSTED = ['translate/ufunc_deriv.py (Python ast -> Gallina tables), fail-closed',
            'C06/Model.v hand-written mirror of the derivative methods, tied by structural correspondence',
-           'harness serialiser of Python operator objects into oexpr terms',
+           'harness serialiser of Python operator objects into oexpr terms; the measured variant switch rsv',
            'NumPy entry-wise kernels, ODL element arithmetic']
 
 
@@ -1129,6 +1136,10 @@ def catalogue():
         for nm, exx in F:
             cat.append(('Functional-%s-%s' % (nm, sk), exx, True))
     cat += [
+        ('Functional-simple_functional-rn3', "S.functional.functional.simple_functional(SP['rn3'], fcall=lambda x: x.norm() ** 2, grad=lambda x: 2 * x)", False),
+        ('Functional-simple_functional-rn3w', "S.functional.functional.simple_functional(SP['rn3w'], fcall=lambda x: x.norm() ** 2, grad=lambda x: 2 * x)", False),
+        ('PointwiseNorm-complex-raises', "odl.PointwiseNorm(odl.ProductSpace(SP['cdiscr3'], 2))", False),
+        ('PointwiseNorm-inf-raises', "odl.PointwiseNorm(odl.ProductSpace(SP['discr4'], 2), exponent=float('inf'))", False),
         ('RosenbrockFunctional-rn', "S.RosenbrockFunctional(odl.rn(4), scale=2.0)", False),
         ('RosenbrockFunctional-weighted-space', "S.RosenbrockFunctional(SP['rn3w'], scale=2.0)", False),
         ('RosenbrockFunctional-weighted-space', "S.RosenbrockFunctional(SP['discr4'], scale=2.0)", False),
@@ -1182,20 +1193,24 @@ def probes(rng, tier):
     return tree_probes(rng, tier) + catalogue_probes(rng, tier)
 
 
-LEVEL_TEXT = ('Proof: Coq theorem for EVERY expression tree (any depth) over OperatorSum/VectorSum/Comp/PointwiseProduct/'
-              'Left-/RightScalarMult/Left-/RightVectorMult/FunctionalLeftVectorMult and the leaves Scaling, Multiply, Matrix, '
-              'InnerProduct, Zero, Constant, Power (integer), every ufunc with a derivative, Norm, Dist and arbitrary '
-              'user-defined leaves: at every regular point where derivative(x) returns, the returned object evaluates '
-              'to the Frechet (Hadamard) derivative, is a bounded linear map domain -> range, is flagged linear and '
-              'well-typed; hence its action on d is the limit of central differences (proved as an epsilon-delta '
-              'statement). Flagged-linear trees are proved linear and their own derivative; affine ones have the '
-              'derivative of the linear part. Each entry of the ufunc derivative/gradient tables REGENERATED from '
-              'ufunc_ops.py is proved to be the derivative of its ufunc. The model is tied to the code by a '
-              'structural correspondence on random trees (whole derivative object compared).')
-LEVEL_NOTE = ('Validated, not proved: the O(h^2) rate (numerical probes); block operators on product spaces, '
-              'PointwiseNorm, ComplexModulus(Squared), functional gradients, non-integer powers, weighted/discretised '
-              'spaces (central-difference probes on the real objects). Exact arithmetic: rounding out of scope. '
-              'Seven recorded findings (findings/C06.json). Axioms: classical reals, funext, classic as printed.')
-TECHNIQUE = ('Coq proof by structural induction over a deep embedding of operator arithmetic, with a curve-based '
-             '(Hadamard) differentiability calculus on R^n built on the standard-library derivable_pt_lim; '
-             'source-regenerated ufunc tables; in-Coq structural differential correspondence; central-difference probes')
+LEVEL_TEXT = ('Proof: Coq theorem for EVERY expression tree (any depth, any number of blocks) over OperatorSum/VectorSum/'
+              'Comp/PointwiseProduct/Left-,RightScalarMult/Left-,RightVectorMult/FunctionalLeftVectorMult and the '
+              'product-space operators Broadcast/Reduction/Diagonal/ProductSpaceOperator, with leaves Scaling, Multiply, '
+              'Matrix, InnerProduct, Zero, Constant, Power (integer), every ufunc with a derivative, Norm, Dist, '
+              'PointwiseNorm (exponent 1, 2; weights) / PointwiseInner and arbitrary user-defined leaves: at every '
+              'regular point where derivative(x) returns, the returned object evaluates to the Frechet (Hadamard) '
+              'derivative, is a bounded linear map domain -> range, is flagged linear and passes the space checks; hence '
+              'its action on d is the limit of central differences (epsilon-delta theorem) and is unique. Flagged-linear '
+              'trees are proved linear and their own derivative; affine ones have the derivative of the linear part; on '
+              'R^n additivity+homogeneity is proved to imply boundedness. Each entry of the ufunc derivative/gradient '
+              'tables REGENERATED from ufunc_ops.py is proved to be the derivative of its ufunc. The model is tied to the '
+              'code by a structural correspondence on random trees (the whole derivative object is compared).')
+LEVEL_NOTE = ('Validated, not proved: the O(h^2) rate; ComplexModulus(Squared), RealPart/ImagPart, non-integer powers, '
+              'PointwiseNorm exponents other than 1, 2, functional gradients (Functional.derivative), weighted/discretised/'
+              'complex spaces, finite-difference operators with pad_const -- all by central-difference probes on the real '
+              'objects. Exact arithmetic: rounding out of scope. Seven recorded findings (findings/C06.json) with four '
+              'proposed fixes. Axioms: classical reals, funext, classic as printed.')
+TECHNIQUE = ('Coq proof by structural induction over a deep embedding of operator arithmetic (nested lists for block '
+             'operators), with a curve-based (Hadamard) differentiability calculus on R^n built on the standard-library '
+             'derivable_pt_lim; source-regenerated ufunc tables; in-Coq structural differential correspondence with a '
+             'measured variant switch; central-difference probes')
